@@ -181,7 +181,7 @@ func (w *worker) do(job *Job) (res *EpisodeResult, died bool, diag string) {
 			return res, false, ""
 		case bytes.HasPrefix(line, []byte("WATCHDOG ")):
 			w.cmd.Wait()
-			return nil, true, "WATCHDOG: episode burnt 20 s of CPU (or 300 s of wall time) without reaching a hook\n" + w.stderr.String()
+			return nil, true, "WATCHDOG: episode burnt 60 s of CPU (or 600 s of wall time; 240 s / 1200 s in the race build) without finishing\n" + w.stderr.String()
 		default:
 			// ERROR lines and anything unexpected
 			if bytes.HasPrefix(line, []byte("ERROR")) {
@@ -266,7 +266,7 @@ func runOne(cfg poolCfg, p *plan.Plan, trace bool) *EpisodeResult {
 func crashSignature(stderr string) (kind, sig string) {
 	switch {
 	case strings.Contains(stderr, "WATCHDOG"):
-		return "watchdog", "hang:20s-of-cpu-without-reaching-a-hook"
+		return "watchdog", "hang:cpu-budget-of-one-episode-exhausted"
 	case strings.Contains(stderr, "fatal error: stack overflow") || strings.Contains(stderr, "goroutine stack exceeds"):
 		return "crash", "fatal:stack-exhaustion:" + stackCycle(stderr)
 	case strings.Contains(stderr, "fatal error: all goroutines are asleep"):
